@@ -213,6 +213,11 @@ def docSize (D : Document) : Nat :=
 
 def fuelFor (D : Document) : Nat := 2 * docSize D + 8
 
+/-- Fuel for the nesting of field pairs in §5.3.2: in a document without spread cycles every step
+    from a pair to a pair of sub-fields strictly decreases (fragments still reachable, size of the
+    enclosing selection set), which is bounded by this (`Merge*.lean`). -/
+def pairFuel (D : Document) : Nat := (docSize D + 2) * (docSize D + 2)
+
 def dedup (xs : List String) : List String :=
   xs.foldl (fun acc x => if acc.contains x then acc else acc ++ [x]) []
 
@@ -358,7 +363,7 @@ def fieldsCanMerge (S : Schema) (D : Document) : Nat → List CF → Bool
   | fuel + 1, fs =>
     pairsOk (fun a b =>
       a.rname != b.rname ||
-      (sameResponseShape S D (fuelFor D) a b &&
+      (sameResponseShape S D (pairFuel D) a b &&
         (match a.parent, b.parent with
          | some pa, some pb =>
            if pa = pb || !isObject S pa || !isObject S pb then
@@ -521,7 +526,7 @@ def noFragmentCycles (D : Document) : Bool :=
 def fieldsMerge (S : Schema) (D : Document) : Bool :=
   !noFragmentCycles D ||
   (selSets S D).all fun (scope, ss) =>
-    fieldsCanMerge S D (fuelFor D) (collect S D (fuelFor D) scope [] ss.sels).1
+    fieldsCanMerge S D (pairFuel D) (collect S D (fuelFor D) scope [] ss.sels).1
 
 def intersects (a b : List String) : Bool := a.any fun x => b.contains x
 
